@@ -60,7 +60,24 @@ let c20_logmw2 args =
     ^ " client=" ^ (if c = 0 then "w:x" else "h" ^ string_of_int c ^ ".w:x")
   | _ -> failwith "logmw2: bad args"
 
+(* logmwjh: A is inside its handler while B is served; each record carries the With attributes of the
+   base logger and then its own request's four attributes (text part of the JSONHybrid line: record
+   attributes first, then the handler's) *)
+let c20_logmwjh args =
+  match args with
+  | [k1; k2; ra; rb] ->
+    let withs pre k = String.concat "" (List.init (int_of_string k) (fun i -> Printf.sprintf " %s%d=%d" pre i i)) in
+    let base = withs "a" k1 ^ withs "b" k2 in
+    let attrs rq = match String.split_on_char ',' rq with
+      | [meth; host; uri; raddr] -> base ^ " host=" ^ host ^ " method=" ^ meth ^ " raddr=" ^ raddr ^ " request_uri=" ^ uri
+      | _ -> failwith "logmwjh: bad request" in
+    let line m extra rq = "level=INFO msg=" ^ m ^ extra ^ attrs rq in
+    String.concat " | " [line "started" "" ra; line "started" "" rb; line "innerB" "" rb;
+                         line "finished" " code=200" rb; line "innerA" "" ra; line "finished" " code=200" ra]
+  | _ -> failwith "logmwjh: bad args"
+
 let () =
+  Registry.register "logmwjh" c20_logmwjh;
   Registry.register "logmw2" c20_logmw2;
   Registry.register "logmwlvl" c20_logmwlvl;
   Registry.register "wrap" c20_wrap;
